@@ -10,7 +10,7 @@ struct Case { int chips = 1, arp = 0, emu = EMU_NP2; std::vector<Op> ops; };
 static std::string ser(const Case &c) { std::ostringstream o; o << "cfg " << c.chips << " " << c.arp << " " << c.emu << "\n" << ser_ops(c.ops); return o.str(); }
 static Case deser(const std::string &s) { Case c; std::istringstream in(s); std::string w; in >> w >> c.chips >> c.arp >> c.emu; c.ops = deser_ops(in); return c; }
 
-struct Info { bool evicted = false, arpeggio = false, sost = false, pedal_held = false, ext = false, rebuilt = false; };
+struct Info { bool bank_removed_under_notes = false, evicted = false, arpeggio = false, sost = false, pedal_held = false, ext = false, rebuilt = false; };
 
 static void check_inv(World &W, const char *when, size_t step, Info &info) {
     Snapshot s = take_snapshot(W.I);
@@ -78,6 +78,7 @@ static void run(const Case &c, Info &info) {
         W.apply(op);
         if(all_busy && W.last_ret) info.evicted = true;
         if(op.kind == O_CHIPS || op.kind == O_EMU || op.kind == O_RELOADBANK || op.kind == O_RESET || op.kind == O_PLAYFILE || op.kind == O_CHIPTYPE) info.rebuilt = true;
+        if(op.kind == O_REMOVEBANK && W.last_ret == 0) { bool any = false; OPNMIDIplay *p = W.I.play(); for(size_t m = 0; m < p->m_midiChannels.size(); m++) if(!p->m_midiChannels[m].activenotes.empty()) any = true; if(any) info.bank_removed_under_notes = true; }
         check_inv(W, kOpName[op.kind], i + 1, info);
     }
 }
@@ -95,7 +96,7 @@ static Op normalize(int kind, int a, int b, int c) {
     switch(kind) {
     case O_NOTEON: p.a = pick(kCh, 6, a); p.b = pick(kKey, 8, b); p.c = (c % 7 == 0) ? 0 : 1 + (c % 127); break;
     case O_NOTEOFF: p.a = pick(kCh, 6, a); p.b = pick(kKey, 8, b); break;
-    case O_CC: p.a = pick(kCh, 6, a); p.b = pick(kCC, 17, b); p.c = pick(kVal, 5, c); break;
+    case O_CC: p.a = pick(kCh, 6, a); p.b = pick(kCC, 17, b); p.c = (p.b == 0 || p.b == 32) ? (c & 1) : pick(kVal, 5, c); break;
     case O_PATCH: p.a = pick(kCh, 6, a); p.b = b % 8; break;
     case O_BEND: p.a = pick(kCh, 6, a); p.b = (b % 3 == 0) ? 8192 : (b * 37) % 16384; break;
     case O_ADVANCE: p.a = pick(kMs, 10, a); break;
@@ -109,6 +110,7 @@ static Op normalize(int kind, int a, int b, int c) {
     case O_SETBLANK: p.a = a % 8; p.b = b & 1; p.c = 0; break;
     case O_PLAYFILE: p.a = pick(kCh, 6, a); p.b = pick(kKey, 8, b) % 100; p.c = c % 40; break;
     case O_CHIPTYPE: p.a = (a % 3) - 1; break;
+    case O_ADDBANK: case O_REMOVEBANK: p.a = a & 1; p.b = b & 1; p.c = (c % 3 == 0); if(kind == O_REMOVEBANK && c % 2 == 0) { p.a = 0; p.b = 0; } break;
     default: break;
     }
     return p;
@@ -117,7 +119,7 @@ static rc::Gen<Op> genOp() {
     using namespace rc;
     auto kind = gen::weightedElement<int>({{30, O_NOTEON}, {14, O_NOTEOFF}, {16, O_CC}, {4, O_PATCH}, {3, O_BEND}, {2, O_PANIC}, {2, O_RESETSTATE}, {10, O_ADVANCE},
                                            {1, O_ATNOTE}, {1, O_ATCH}, {2, O_ARP}, {1, O_CHIPS}, {1, O_EMU}, {1, O_RELOADBANK}, {1, O_RESET}, {1, O_ALLOCMODE},
-                                           {2, O_SYSEX}, {2, O_SETBLANK}, {1, O_PLAYFILE}, {1, O_CHIPTYPE}});
+                                           {2, O_SYSEX}, {2, O_SETBLANK}, {1, O_PLAYFILE}, {1, O_CHIPTYPE}, {2, O_ADDBANK}, {2, O_REMOVEBANK}});
     return gen::map(gen::tuple(kind, rng<int>(0, 1000), rng<int>(0, 1000), rng<int>(0, 1000)),
                     [](std::tuple<int, int, int, int> t) { return normalize(std::get<0>(t), std::get<1>(t), std::get<2>(t), std::get<3>(t)); });
 }
@@ -159,6 +161,7 @@ static void account(const Case &c, const Info &info, const std::string &s) {
     if(info.pedal_held) st.label("pedal_held");
     if(info.ext) st.label("drum_extended_life");
     if(info.rebuilt) st.label("tables_rebuilt(reset/chips/emu/bank/file)");
+    if(info.bank_removed_under_notes) st.label("bank_removed_while_notes_active");
     (void)c;
 }
 
